@@ -63,7 +63,7 @@ NsOK(pre, e, exp, post) ==
   THEN LET p == e.args[1]  c == e.args[2]  D == Desc(pre.kids, c) IN
        /\ \A m \in NodesOf(pre) \ D : post.ns[m] = pre.ns[m]                          \* Frame
        /\ post.ns[c] = NsMerge(pre.ns[p], pre.ns[c])                                   \* child wins
-       /\ \A m \in D : NsDom(post.ns[c]) \subseteq NsDom(post.ns[m])                  \* visible below
+       \* below c the statement promises nothing (TLC: a descendant may have removed a prefix c keeps)
   ELSE post.ns = exp.st.ns
 
 Query(pre, e) ==
@@ -78,11 +78,25 @@ Query(pre, e) ==
     [] e.q = "child_index"          -> ChildIndex(K, a[1], a[2])
     [] e.q = "is_equal"             -> TreeEq(pre, a[1], a[2])
 
+(* C14 on whole-tree operations (import of a document; prune / expand, which are documented to
+   discard nodes): judged relationally on the logged pre/post states *)
+Registry(pre, e, post) ==
+  LET root == e.args[1]
+      old  == IF root <= Size(pre) THEN Desc(pre.kids, root) ELSE {}
+      live == Desc(post.kids, root)
+      fresh == (Size(pre) + 1)..Size(post)
+  IN (IF live \subseteq post.store THEN {} ELSE {"live-node-unregistered"})
+     \cup (IF (old \ live) \cap post.store = {} THEN {} ELSE {"discarded-node-still-registered"})
+     \cup (IF \A n \in NodesOf(pre) \ old : (n \in post.store) = (n \in pre.store) THEN {} ELSE {"unrelated-registry-changed"})
+     \cup (IF e.op = "import_doc" /\ ~(fresh \subseteq post.store /\ fresh = live) THEN {"import-registers"} ELSE {})
+
 Clauses(t, k) ==
   LET e == Traces[t].events[k]  pre == PreOf(t, k) IN
   IF e.op = "q"
   THEN (IF Query(pre, e) = e.ret THEN {} ELSE {"query:" \o e.q})
        \cup (IF Load(e.post) = pre THEN {} ELSE {"query-mutates"})
+  ELSE IF e.op = "resync" THEN {}            \* the harness edited through the public API; nothing judged
+  ELSE IF e.op \in {"import_doc", "discarding"} THEN Registry(pre, e, Load(e.post))
   ELSE IF ~Precond(pre, e) THEN {"HARNESS-precondition"}
   ELSE LET exp == Expect(pre, e)  post == Load(e.post) IN
        IF exp.ok # B(e.ok) THEN {IF exp.ok THEN "raised-unexpectedly" ELSE "did-not-raise"}
